@@ -261,8 +261,11 @@ func runC12(c *Ctx, r *Report) {
 					if ec.Cond == nil {
 						continue
 					}
-					if bo, isBo := ec.Cond.(*ssa.BinOp); isBo && bo.Op == token.NEQ && isFieldLoadNamed(bo.X, "ChannelResponse") {
-						if ec.Truth {
+					if bo, isBo := ec.Cond.(*ssa.BinOp); isBo && (bo.Op == token.NEQ || bo.Op == token.EQL) && isFieldLoadNamed(bo.X, "ChannelResponse") {
+						if s, isS := constString(bo.Y); !isS || s != "" {
+							continue
+						}
+						if ec.Truth == (bo.Op == token.NEQ) {
 							respEdge = true
 						} else {
 							noRespEdge = true
